@@ -34,7 +34,11 @@ At == E.pos = pos
 BitAt(p) == msg[p + 1]                       \* the bit behind 0-based position p
 Avail(p, n) == p + n <= Len(msg)
 
-RScope(k, bitPos, lo, hi, calls, nExt) == [k |-> k, bitPos |-> bitPos, lo |-> lo, hi |-> hi, calls |-> calls, nExt |-> nExt]
+\* base / readN: where the transmitted presence bitmap starts and how many additions the sender announced (scope "all")
+RScopeX(k, bitPos, lo, hi, calls, nExt, base, readN) ==
+  [k |-> k, bitPos |-> bitPos, lo |-> lo, hi |-> hi, calls |-> calls, nExt |-> nExt, base |-> base, readN |-> readN]
+RScope(k, bitPos, lo, hi, calls, nExt) == RScopeX(k, bitPos, lo, hi, calls, nExt, 0, 0)
+RNone == RScope("none", 0, 0, 0, 0, 0)
 RRes(p, s, pres, ok) == [pos |-> p, sc |-> s, pres |-> pres, ok |-> ok]      \* pres in {"none", "yes", "no"}
 Pres(b) == IF b = 1 THEN "yes" ELSE "no"
 
@@ -57,7 +61,7 @@ REntry(p, s, isOpt) ==
          IF ~Avail(p, 7) \/ BitAt(p) = 1 THEN RRes(p, s, "none", FALSE)               \* more than 64 additions: not traced
          ELSE LET readN == BitsNat(SubSeq(msg, p + 2, p + 7)) + 1
                   width == Min(readN, s.nExt)
-                  s1 == RScope("all", 0, p + 7, p + 7 + width, 0, 0)
+                  s1 == RScopeX("all", 0, p + 7, p + 7 + width, 0, s.nExt, p + 7, readN)
               IN IF Avail(p + 7, readN) THEN REntry(p + 7 + readN, s1, isOpt) ELSE RRes(p, s, "none", FALSE)
     [] s.k = "extempty" -> RRes(p, s, "no", TRUE)
 
@@ -70,25 +74,45 @@ Window(p, s) ==
   ELSE [ok |-> TRUE, start |-> p, endp |-> 0 - 1]
 
 \* left = number of value events still to come (1 for a present OPTIONAL / DEFAULT, n for a list)
-Frame(k, endp, saved) == [k |-> k, endp |-> endp, saved |-> saved, ended |-> FALSE, live |-> TRUE, left |-> 0]
+\* cn / cx = root alternatives / extensibility of a CHOICE (from its enter event, used when the index arrives)
+Frame(k, endp, saved) == [k |-> k, endp |-> endp, saved |-> saved, ended |-> FALSE, live |-> TRUE, left |-> 0, cn |-> 0, cx |-> FALSE, ct |-> 0]
 Fail == failed' = TRUE /\ UNCHANGED <<msg, pos, sc, fs, want>>
 Push(f, p, s) == fs' = Append(fs, f) /\ pos' = p /\ sc' = s /\ UNCHANGED <<msg, failed, want>>
+
+\* 19.9 / 10.2 of X.680: a reader skips the extension additions it does not know.  SkipOpen(p, ks) = the position behind
+\* the open types of the additions numbered ks (a sequence of 1-based addition numbers whose presence bit is set)
+RECURSIVE SkipOpen(_, _)
+SkipOpen(p, ks) ==
+  IF ks = <<>> \/ p < 0 THEN p
+  ELSE LET d == DecLenGeneral(msg, p)
+       IN IF d.ok /\ ~d.frag /\ Avail(d.pos, 8 * d.n) THEN SkipOpen(d.pos + 8 * d.n, Tail(ks)) ELSE 0 - 1
+PresentFrom(base, from, to) == SelectSeq([j \in 1..(to - from + 1) |-> from + j - 1], LAMBDA k : BitAt(base + k - 1) = 1)
+\* where the cursor belongs at the end of a SEQUENCE whose scope ended as s (0 - 1: malformed)
+AfterUnknown(p, s) ==
+  IF "NoSkipUnknownAdditions" \in Dev THEN p                  \* the code today: nothing is skipped
+  ELSE IF s.k = "all" /\ s.readN > s.nExt THEN SkipOpen(p, PresentFrom(s.base, s.nExt + 1, s.readN))
+  ELSE IF s.k = "extseq" /\ s.calls = 0 /\ s.nExt = 0          \* extension bit set, but this reader knows no addition at all
+  THEN IF ~Avail(p, 7) \/ BitAt(p) = 1 THEN 0 - 1
+       ELSE LET readN == BitsNat(SubSeq(msg, p + 2, p + 7)) + 1
+            IN IF Avail(p + 7, readN) THEN SkipOpen(p + 7 + readN, PresentFrom(p + 7, 1, readN)) ELSE 0 - 1
+  ELSE p
 
 \* the exit of a composite: the caller's scope comes back; an open type is left at the end of its window
 Finish(kind) ==
   LET f == fs[Len(fs)]
-      p == IF f.endp >= 0 THEN f.endp ELSE pos
+      q == IF kind = "seq" THEN AfterUnknown(pos, sc) ELSE pos
+      p == IF f.endp >= 0 THEN f.endp ELSE q
   IN /\ Len(fs) > 0 /\ f.k = kind /\ E.ok /\ (kind = "seq" => f.ended) /\ f.left = 0
-     /\ (f.endp >= 0 => pos <= f.endp)                         \* the content stayed inside its window
+     /\ q >= 0 /\ (f.endp >= 0 => q <= f.endp)                 \* the content stayed inside its window
      /\ fs' = SubSeq(fs, 1, Len(fs) - 1) /\ pos' = p /\ sc' = f.saved /\ E.pos = p
      /\ UNCHANGED <<msg, failed, want>>
 
 Reset ==
   /\ Is("reset", "call") \/ Is("summary", "call")
   /\ l > 1 => (failed = ~want /\ (~failed => fs = <<>>))
-  /\ (l > 1 /\ ~failed) => pos = Len(msg)                     \* the message was consumed exactly
+  /\ (l > 1 /\ ~failed /\ "NoSkipUnknownAdditions" \notin Dev) => pos = Len(msg)     \* the message was consumed exactly
   /\ msg' = IF E.ev = "reset" THEN E.bits ELSE <<>>
-  /\ pos' = 0 /\ sc' = NoScope /\ fs' = <<>> /\ failed' = FALSE
+  /\ pos' = 0 /\ sc' = RNone /\ fs' = <<>> /\ failed' = FALSE
   /\ want' = IF E.ev = "reset" THEN E.ok ELSE TRUE
 
 SeqEnter ==
@@ -103,7 +127,7 @@ SeqEnter ==
         THEN Push(Frame("seq", w.endp, r.sc), p1 + E.opt, inner) ELSE Fail
 Body(ev) == Is(ev, "body") /\ At /\ UNCHANGED <<msg, pos, sc, fs, failed, want>>
 SeqEnd ==
-  /\ Is("seq", "end") /\ E.ok /\ At /\ Exhausted(sc)
+  /\ Is("seq", "end") /\ E.ok /\ At /\ Exhausted(sc) /\ Counted(sc)
   /\ Len(fs) > 0 /\ fs[Len(fs)].k = "seq" /\ ~fs[Len(fs)].ended
   /\ fs' = [fs EXCEPT ![Len(fs)].ended = TRUE] /\ UNCHANGED <<msg, pos, sc, failed, want>>
 
@@ -113,7 +137,7 @@ OptEnter ==
   /\ LET r == REntry(pos, sc, TRUE)
      IN IF ~r.ok \/ r.pres = "none" THEN Fail
         ELSE IF r.pres = "no" THEN Push([Frame("opt", 0 - 1, r.sc) EXCEPT !.live = FALSE], r.pos, r.sc)
-        ELSE LET w == Window(r.pos, r.sc) IN IF w.ok THEN Push([Frame("opt", w.endp, r.sc) EXCEPT !.left = 1], w.start, NoScope) ELSE Fail
+        ELSE LET w == Window(r.pos, r.sc) IN IF w.ok THEN Push([Frame("opt", w.endp, r.sc) EXCEPT !.left = 1], w.start, RNone) ELSE Fail
 \* the value of an OPTIONAL / DEFAULT component or a list element starts: only where the specification expects one
 ValueBody ==
   /\ Is("value", "body") /\ At /\ Len(fs) > 0 /\ fs[Len(fs)].k \in {"opt", "seqof"} /\ fs[Len(fs)].live /\ fs[Len(fs)].left > 0
@@ -126,25 +150,36 @@ SeqOfEnter ==
          hdr == EncSized(E.sz, [j \in 1..E.n |-> <<>>])
          p == w.start
      IN IF r.ok /\ w.ok /\ hdr.ok /\ Avail(p, Len(hdr.bits)) /\ SubSeq(msg, p + 1, p + Len(hdr.bits)) = hdr.bits
-        THEN Push([Frame("seqof", w.endp, r.sc) EXCEPT !.left = E.n], p + Len(hdr.bits), NoScope) ELSE Fail
+        THEN Push([Frame("seqof", w.endp, r.sc) EXCEPT !.left = E.n], p + Len(hdr.bits), RNone) ELSE Fail
 
 ChoiceEnter ==
   /\ Is("choice", "enter") /\ At
   /\ LET r == REntry(pos, sc, FALSE)
-     IN IF r.ok THEN Push([Frame("choice", 0 - 1, r.sc) EXCEPT !.live = FALSE], r.pos, NoScope) ELSE Fail
+     IN IF r.ok THEN Push([Frame("choice", 0 - 1, r.sc) EXCEPT !.live = FALSE, !.cn = E.nroot, !.cx = E.ext, !.ct = E.n], r.pos, RNone) ELSE Fail
 \* the index has been read (it is in the event), an extension alternative opens a window
 ChoiceBody ==
   /\ Is("choice", "body") /\ Len(fs) > 0 /\ fs[Len(fs)].k = "choice" /\ ~fs[Len(fs)].live
   /\ LET f == fs[Len(fs)]
-         idx == Index(E.nroot, E.ext, E.idx)
+         idx == Index(f.cn, f.cx, E.idx)
          p == pos + Len(idx.bits)
-         w == IF E.idx >= E.nroot THEN Window(p, RScope("all", 0, 0, 0, 0, 0)) ELSE [ok |-> TRUE, start |-> p, endp |-> 0 - 1]
+         w == IF E.idx >= f.cn THEN Window(p, RScope("all", 0, 0, 0, 0, 0)) ELSE [ok |-> TRUE, start |-> p, endp |-> 0 - 1]
      IN /\ idx.ok /\ Avail(pos, Len(idx.bits)) /\ SubSeq(msg, pos + 1, p) = idx.bits /\ w.ok
         /\ E.pos = w.start
         /\ fs' = [fs EXCEPT ![Len(fs)] = [f EXCEPT !.live = TRUE, !.endp = w.endp]]
-        /\ pos' = w.start /\ UNCHANGED <<msg, sc, failed, want>>
+        \* an alternative this reader does not know (a newer sender) is reported as an error, never as a value
+        /\ pos' = w.start /\ failed' = (E.idx >= f.ct) /\ UNCHANGED <<msg, sc, want>>
 
 \* a primitive: entry, window, then exactly the bits of the X.691 encoding of the value the call returned
+\* without (t, v) in the event (numbers beyond 2^29, long strings) only the frame condition is checked
+LeafOpaque ==
+  /\ Is("leaf", "call") /\ ~E.hastv
+  /\ LET r == REntry(pos, sc, FALSE)
+         w == Window(r.pos, r.sc)
+     IN IF E.ok
+        THEN /\ r.ok /\ w.ok /\ E.pos >= w.start /\ E.pos <= Len(msg) /\ (w.endp >= 0 => E.pos = w.endp)
+             /\ pos' = E.pos /\ sc' = r.sc /\ UNCHANGED <<msg, fs, failed, want>>
+        ELSE Fail
+
 Leaf ==
   /\ Is("leaf", "call") /\ E.hastv
   /\ LET r == REntry(pos, sc, FALSE)
@@ -165,9 +200,9 @@ Live ==
   \/ OptEnter \/ ValueBody \/ (Is("opt", "exit") /\ Finish("opt"))
   \/ SeqOfEnter \/ (Is("seqof", "exit") /\ Finish("seqof"))
   \/ ChoiceEnter \/ ChoiceBody \/ (Is("choice", "exit") /\ Finish("choice"))
-  \/ Leaf
+  \/ Leaf \/ LeafOpaque
 
-Init == l = 1 /\ msg = <<>> /\ pos = 0 /\ sc = NoScope /\ fs = <<>> /\ failed = FALSE /\ want = TRUE
+Init == l = 1 /\ msg = <<>> /\ pos = 0 /\ sc = RNone /\ fs = <<>> /\ failed = FALSE /\ want = TRUE
 Next == l <= Len(Rec) /\ l' = l + 1 /\ (Reset \/ (~failed /\ Live) \/ Unwind)
 Spec == Init /\ [][Next]_vars
 
